@@ -18,16 +18,15 @@ func init() {
 	})
 }
 
-func checkC12(w *World, r *Report) {
-	ro := resolveRoles(w)
+// retentionTable evaluates the retention decision on every order type of its inputs (shared by C12 and C03).
+func retentionTable(w *World, r *Report) (ro *Roles, dec *ssa.Function, decCall *ssa.Call) {
+	ro = resolveRoles(w)
 	ro.record(r)
 	if ro.la == nil || ro.Save == nil {
 		r.Undecided("anchors", "roles", "-", "save function unresolved: "+strings.Join(ro.Errs, "; "))
-		return
+		return ro, nil, nil
 	}
 	// anchor: the retention decision = callee of the save function returning (bool, …) taking (int, *PipelineJob)
-	var dec *ssa.Function
-	var decCall *ssa.Call
 	allInstrs(ro.Save, func(in ssa.Instruction) {
 		if c, ok := in.(*ssa.Call); ok {
 			f := c.Call.StaticCallee()
@@ -38,7 +37,7 @@ func checkC12(w *World, r *Report) {
 	})
 	if dec == nil {
 		r.Undecided("table.anchors", "retention decision", w.Pos(ro.Save.Pos()), "the save function calls no (index, job) → (bool, …) decision function")
-		return
+		return ro, nil, nil
 	}
 	r.Anchor("retention decision", FuncName(dec))
 	fname := FuncName(dec)
@@ -64,7 +63,7 @@ func checkC12(w *World, r *Report) {
 									p, why := selectPath(res.Paths, vars, env)
 									if p == nil || len(p.Ret) < 1 {
 										r.Undecided("table.retention", fname+": decision table", w.Pos(dec.Pos()), "cannot evaluate the retention decision: "+why)
-										return
+										return ro, nil, nil
 									}
 									got := p.Ret[0] == "true"
 									var want bool
@@ -97,6 +96,14 @@ func checkC12(w *World, r *Report) {
 		fmt.Sprintf("%d valuations agree with: undefined pipeline → remove; waiting/running → keep; else remove ⇔ (period>0 ∧ age>period) ∨ (count>0 ∧ rank≥count)", n),
 		fmt.Sprintf("%d of %d valuations disagree with the stated retention table; first: %s", bad, n, first))
 
+	return ro, dec, decCall
+}
+
+func checkC12(w *World, r *Report) {
+	ro, dec, decCall := retentionTable(w, r)
+	if dec == nil {
+		return
+	}
 	// ---- rank: index and job of the call are the position/element of a sorted fresh copy
 	save := ro.Save
 	sname := FuncName(save)
@@ -170,6 +177,40 @@ func checkC12(w *World, r *Report) {
 				}
 				r.Check(okL, "rank.less-orientation", FuncName(fn)+": Less(i,j) = by(elem i, elem j)", w.Pos(fn.Pos()), "the comparator is applied to (i, j) in this order", "Less applies the comparator with swapped or wrong elements: the ranking is reversed")
 			}
+		}
+	}
+
+	// ---- every job of every pipeline with jobs is put to the decision: the per-pipeline
+	// iteration cannot go on to the next pipeline without entering the ranking loop
+	{
+		var outerNext ssa.Instruction
+		allInstrs(save, func(in ssa.Instruction) {
+			if nx, ok := in.(*ssa.Next); ok {
+				if rg, ok := nx.Iter.(*ssa.Range); ok && w.AP(rg.X) == "recv.jobsByPipeline" {
+					outerNext = in
+				}
+			}
+		})
+		// inner loop header: the innermost block with a back edge that dominates the decision call
+		var innerHdr *ssa.BasicBlock
+		for b := decCall.Block(); b != nil; b = b.Idom() {
+			back := false
+			for _, p := range b.Preds {
+				if b.Dominates(p) {
+					back = true
+				}
+			}
+			if back {
+				innerHdr = b
+				break
+			}
+		}
+		if outerNext == nil || innerHdr == nil || innerHdr == outerNext.Block() {
+			r.Viol("rank.every-job-decided", sname+": retention loop", w.Pos(save.Pos()), "the save function does not iterate the per-pipeline job lists with an inner ranking loop around the decision")
+		} else {
+			res := PathQuery{Fn: save, Start: []ssa.Instruction{outerNext}, Target: func(x ssa.Instruction) bool { return x == outerNext },
+				BlockInstr: func(x ssa.Instruction) bool { return x.Block() == innerHdr }}.Find()
+			r.Check(!res.Found, "rank.every-job-decided", sname+": every pipeline's jobs reach the decision", w.InstrPos(outerNext), "from one pipeline to the next the ranking loop over its jobs is always entered", "the per-pipeline iteration can skip the ranking loop ("+res.String()+"): jobs of such pipelines (e.g. pipelines that are no longer defined, whose lookup yields the zero definition) are never put to the retention decision")
 		}
 	}
 
